@@ -42,6 +42,8 @@ FLAVORS = {
     # name: (cargo args, env additions, path of binary relative to HARNESS)
     "native": (["cargo", "build", "--release"], {}, "target/release/mhv"),
     "relfast": (["cargo", "build", "--profile", "relfast"], {}, "target/relfast/mhv"),
+    # unoptimised build (what `cargo test` users run): real stack frames per call, no tail-call elimination
+    "debug": (["cargo", "build"], {}, "target/debug/mhv"),
     "asan": (
         ["cargo", "+nightly", "build", "--release", "--target", "x86_64-unknown-linux-gnu",
          "--target-dir", "target-asan"],
